@@ -12,22 +12,29 @@ def sh(cmd, cwd=None, timeout=7200):
 src, name, checks = sys.argv[1], sys.argv[2], sys.argv[3].split(',')
 only = sys.argv[5] if len(sys.argv) > 5 and sys.argv[4] == '--only' else None
 env = 'OMPI_ALLOW_RUN_AS_ROOT=1 OMPI_ALLOW_RUN_AS_ROOT_CONFIRM=1 '
-W = '/tmp/seedchk'; out = '/verif/seeded/' + name; os.makedirs(out, exist_ok=True)
+W = os.environ.get('SEED_WT') or '/tmp/seedchk'; inplace = bool(os.environ.get('SEED_WT')); out = '/verif/seeded/' + name; os.makedirs(out, exist_ok=True)
 patch = os.path.join(src, 'patch.diff')
 meta = json.load(open(os.path.join(src, 'meta.json'))) if os.path.exists(os.path.join(src, 'meta.json')) else {}
 res = dict(property=meta.get('property'), what=meta.get('what'), needs=meta.get('needs'), author_ran=meta.get('ran'))
-sh('git checkout -q -- . && git checkout -q --detach $(git -C /repo rev-parse HEAD)', cwd=W)
+# SEED_WT=<worktree>: the author's own worktree of /repo's HEAD with the change already applied (and possibly built) is re-used for
+# the confirmation so that the suite is not rebuilt twice: its diff must equal patch.diff, the un-patched demo run uses /repo/include
+if inplace:
+    rc, o = sh('git diff > /tmp/seed_wt.diff; git apply -R --check %s && test "$(git rev-parse HEAD)" = "$(git -C /repo rev-parse HEAD)" && git -C /repo diff --quiet' % patch, cwd=W)
+    if rc != 0: print('SEED_WT: worktree does not hold exactly the patch on /repo HEAD', o); sys.exit(2)
+else:
+    sh('git checkout -q -- . && git checkout -q --detach $(git -C /repo rev-parse HEAD)', cwd=W)
 # demo without the patch
 CXX = os.environ.get('SEED_DEMO_CXX', 'g++'); LIBS = os.environ.get('SEED_DEMO_LIBS', ''); RUN = os.environ.get('SEED_DEMO_RUN', '')
 demo_cmd = env + '%s -std=c++17 -I%s/include %s/demo.cpp -o /tmp/seedchk_demo %s && %s /tmp/seedchk_demo' % (CXX, W, src, LIBS, RUN)
-rc0, o0 = sh(demo_cmd, cwd=W)
-rc, o = sh('git apply %s' % patch, cwd=W)
-if rc != 0: print('patch does not apply', o); sys.exit(2)
+rc0, o0 = sh(demo_cmd.replace('-I%s/include' % W, '-I/repo/include') if inplace else demo_cmd, cwd=W)
+if not inplace:
+    rc, o = sh('git apply %s' % patch, cwd=W)
+    if rc != 0: print('patch does not apply', o); sys.exit(2)
 rc1, o1 = sh(demo_cmd, cwd=W)
-rcb, ob = sh('cmake --build _build -j16', cwd=W)
+rcb, ob = sh('(test -f _build/build.ninja || cmake -G Ninja -S . -B _build -DCMAKE_BUILD_TYPE=RelWithDebInfo -DCMAKE_CXX_FLAGS=-Wno-error >/dev/null) && cmake --build _build -j%s' % os.environ.get('SEED_JOBS', '16'), cwd=W)
 rct, ot = sh(env + 'ctest --test-dir _build -j8 --timeout 600', cwd=W)
 passed = [l for l in ot.split('\n') if 'tests passed' in l]
-sh('git checkout -q -- .', cwd=W)
+if not inplace: sh('git checkout -q -- .', cwd=W)
 res['demo_cmd'] = demo_cmd
 res['confirmed'] = dict(demo_without_patch_exit=rc0, demo_with_patch_exit=rc1, build_exit=rcb, ctest=passed[0].strip() if passed else ot[-300:])
 ok = rc0 == 0 and rc1 != 0 and rcb == 0 and passed and passed[0].startswith('100%')
